@@ -226,6 +226,7 @@ spif_str_init_from_fp(spif_str_t self, FILE *fp)
     self->size = buff_inc;
     self->len = 0;
     self->s = (spif_charptr_t) MALLOC(self->size);
+    *(self->s) = 0;
 
     for (p = self->s; fgets((char *)p, buff_inc, fp); p += buff_inc) {
         if (!(end = (spif_charptr_t)strchr((const char *)p, '\n'))) {
